@@ -23,6 +23,28 @@ pub fn eval_text(text: &str, ordering: Option<Vec<NamedSymbol>>) -> Result<(NB, 
     Ok((r, pf))
 }
 
+/// Does the text contain a number literal in (i64::MAX, u64::MAX]? Whether the syntax accepts such
+/// literals is left to the implementation (C05: "every non-negative constant the syntax accepts");
+/// a rejection of such a text is therefore not judged.
+pub fn huge_literal(text: &str) -> bool {
+    match crate::rlex::lex(text) {
+        Ok(toks) => toks.iter().any(|t| matches!(t, crate::rlex::Tok::Num(v) if *v > i64::MAX as u64)),
+        Err(_) => false,
+    }
+}
+
+/// The violation (or the declined case) for a well-formed text that the implementation rejected.
+pub fn rejection(text: &str, what: &str, err: &str, case: &serde_json::Value) -> crate::engine::Violation {
+    if huge_literal(text) {
+        crate::engine::Violation::new(
+            "SKIP: text with a number literal beyond i64::MAX rejected (acceptance of such literals is implementation-defined)",
+            case.clone(),
+        )
+    } else {
+        crate::engine::Violation::new(format!("{} rejected: {}", what, err), case.clone())
+    }
+}
+
 /// Outcome of running the implementation on a text with every panic captured.
 pub enum Run {
     ParseErr(String),
